@@ -15,6 +15,7 @@ from ..checks import producer
 from ..pat import P, K, V, C, F, AGG, OKP, BIN, CLO, TUP, FN, ANY, ALT, match, closure_ret, unref
 
 CONFIGS = ("FULL", "XEN")
+THOROUGH_CONFIGS = ("MIN",)
 TRUSTED = [
     "core::ptr::copy / copy_nonoverlapping / read_volatile / write_volatile move exactly the bytes they are given, in the stated direction",
     "C01 (containment), C06 (width table)",
@@ -104,6 +105,17 @@ def run(ctx, progs):
                     ok = self_len_of(tot, guest, eff) and any(canon(x.target or "").endswith("Vec::reserve") and b.pos_dominates(x.pos, c.pos) for x in b.calls())
                     d += ": whole guest slice into freshly reserved Vec capacity (C13 R13.2)"
                 ctx.ob("R4.2.capped_count", inst, ok, c.where(), d)
+                # unit rule: the helpers count BYTES. A host buffer &[T] / &mut [T] contributes an ELEMENT count,
+                # which is a byte count only where size_of::<T>() == 1 is known (dominating fact) or T is u8/i8.
+                if hx is not None and hx[0] == 'param':
+                    hty = b.local_ty(hx[1]).peel()
+                    el = hty.inner().s if hty.k == 'slice' and hty.inner() is not None else None
+                    if el is not None and el not in ("u8", "i8"):
+                        facts = b.facts_at(c.pos)
+                        one = any(r[0] == 'cmp' and r[1] == 'Eq' and is_call(unref(r[2]), "size_of") and unref(r[2])[3] == (el,) and r[3] == ('const', 1) for r in facts)
+                        ctx.ob("R4.2.byte_route_unit", inst, one, c.where(),
+                               f"host buffer is a slice of `{el}`: its len() is an element count, used here as a byte count; only sound behind `size_of::<{el}>() == 1`"
+                               + ("" if one else " — no such dominating test (an `align_of`/other test does not bound the element size): copies and returns the wrong amount for wider elements"))
         ctx.floor("R4.2.copy_sites", n_sites, 7)
         # slice-to-slice copies
         for adt in (SL, ARR):
